@@ -576,3 +576,181 @@ func TestC06(t *testing.T) {
 	_ = sort.Strings
 	run.Finish(t)
 }
+
+// TestC06Race: writers, gossip pumps, push/pull and watchers run as real concurrent goroutines
+// (race detector on); after they stop, the bounded recovery and the same judgement apply.
+func TestC06Race(t *testing.T) {
+	run := vt.NewRun("C06", "fault_enumeration")
+	run.SetRule("concurrent mode under the race detector: one writer goroutine and one gossip-pump goroutine per node plus a push/pull goroutine and watchers run truly concurrently for a bounded number of operations; then the bounded recovery and the agreement / domination / watcher judgement.")
+	run.ForEachT(t, "concurrent", vt.N(150, 3000), func(t *testing.T, c vt.CaseID, rng *rand.Rand, sl *vt.Slot) {
+		sl.Enter(c, "crash/concurrent")
+		defer sl.Leave()
+		synctest.Test(t, func(t *testing.T) {
+			n := 2 + rng.IntN(4)
+			net, err := simnet.New(n, simnet.DefaultConfig(time.Hour))
+			if err != nil {
+				run.Inconclusive(err.Error())
+				return
+			}
+			defer net.Stop()
+			var mu sync.Mutex
+			var acks []acked
+			var wg sync.WaitGroup
+			stop := make(chan struct{})
+			seeds := make([]uint64, n)
+			for i := range seeds {
+				seeds[i] = rng.Uint64()
+			}
+			for i := 0; i < n; i++ {
+				wg.Add(1)
+				go func(i int) { // writer on node i
+					defer wg.Done()
+					r := rand.New(rand.NewPCG(seeds[i], 1))
+					cl := net.Client(i, ring.GetCodec())
+					for k := 0; k < 25; k++ {
+						id := fmt.Sprintf("w%d-%d", i, r.IntN(3))
+						var a acked
+						err := cl.CAS(context.Background(), simnet.RingKey, func(in interface{}) (interface{}, bool, error) {
+							d := ring.GetOrCreateRingDesc(in)
+							now := time.Now().Unix()
+							if _, ok := d.Ingesters[id]; ok && r.IntN(6) == 0 {
+								delete(d.Ingesters, id)
+								a = acked{i, simnet.RingKey, id, now, true}
+							} else {
+								d.Ingesters[id] = ring.InstanceDesc{Id: id, Addr: id, State: ring.ACTIVE, Timestamp: now, Tokens: []uint32{uint32(i*1000 + k)}}
+								a = acked{i, simnet.RingKey, id, now, false}
+							}
+							return d, true, nil
+						})
+						if err == nil {
+							mu.Lock()
+							acks = append(acks, a)
+							mu.Unlock()
+						}
+						time.Sleep(time.Duration(r.IntN(1500)) * time.Millisecond)
+					}
+				}(i)
+				wg.Add(1)
+				go func(i int) { // gossip pump of node i
+					defer wg.Done()
+					r := rand.New(rand.NewPCG(seeds[i], 2))
+					for {
+						select {
+						case <-stop:
+							return
+						default:
+						}
+						for _, m := range net.Collect(i) {
+							for j := 0; j < n; j++ {
+								if j != i && r.IntN(4) != 0 {
+									net.Deliver(j, m)
+								}
+							}
+						}
+						time.Sleep(time.Duration(50+r.IntN(200)) * time.Millisecond)
+					}
+				}(i)
+			}
+			var ws []*watcher
+			for i := 0; i < n; i++ {
+				w := &watcher{node: i, key: simnet.RingKey}
+				ctx, cancel := context.WithCancel(context.Background())
+				w.cancel = cancel
+				ws = append(ws, w)
+				go net.Client(i, ring.GetCodec()).WatchKey(ctx, simnet.RingKey, func(v interface{}) bool {
+					w.mu.Lock()
+					w.last = simnet.Canon(v, true)
+					w.calls++
+					w.mu.Unlock()
+					return true
+				})
+			}
+			ppDone := make(chan struct{})
+			go func() { // push/pull between random pairs
+				defer close(ppDone)
+				r := rand.New(rand.NewPCG(seeds[0], 3))
+				for {
+					select {
+					case <-stop:
+						return
+					default:
+					}
+					a, b := r.IntN(n), r.IntN(n)
+					if a != b {
+						net.PushPull(a, b)
+					}
+					time.Sleep(time.Duration(500+r.IntN(1500)) * time.Millisecond)
+				}
+			}()
+			// writers finish on their own; then stop the pumps
+			time.Sleep(50 * time.Second)
+			close(stop)
+			wg.Wait()
+			<-ppDone
+			synctest.Wait()
+			for i := 0; i+1 < n; i++ {
+				net.PushPull(i, i+1)
+				synctest.Wait()
+			}
+			for i := n - 1; i > 0; i-- {
+				net.PushPull(i, i-1)
+				synctest.Wait()
+			}
+			for r := 0; r < 12; r++ {
+				for i := 0; i < n; i++ {
+					for _, m := range net.Collect(i) {
+						for j := 0; j < n; j++ {
+							if j != i {
+								net.Deliver(j, m)
+							}
+						}
+					}
+				}
+				synctest.Wait()
+			}
+			time.Sleep(time.Second)
+			synctest.Wait()
+			viol := func(sig, what string, extra map[string]any) {
+				d := map[string]any{"nodes": n, "acknowledged": len(acks)}
+				for k, v := range extra {
+					d[k] = v
+				}
+				run.Violation(c, "concurrent/"+sig, what, d)
+			}
+			ref := net.Visible(0, simnet.RingKey)
+			for j := 1; j < n; j++ {
+				if v := net.Visible(j, simnet.RingKey); v != ref {
+					viol("divergence-after-recovery", fmt.Sprintf("n0 and n%d differ after recovery", j), map[string]any{"n0": ref, fmt.Sprintf("n%d", j): v})
+					break
+				}
+			}
+			for j := 0; j < n; j++ {
+				st, err := simnet.DecodeState(net.Nodes[j].KV.LocalState(false))
+				if err != nil {
+					continue
+				}
+				for _, a := range acks {
+					if !dominated(st, a) {
+						viol("acknowledged-write-lost", fmt.Sprintf("CAS acknowledged on n%d (%s ts=%d removed=%v) not reflected by n%d", a.Node, a.Entry, a.TS, a.Left, j), map[string]any{"state": net.StateCanon(j)})
+						break
+					}
+				}
+			}
+			for _, w := range ws {
+				w.mu.Lock()
+				last, calls := w.last, w.calls
+				w.mu.Unlock()
+				if calls > 0 {
+					if fin := net.Visible(w.node, w.key); fin != last {
+						viol("watcher-stale", fmt.Sprintf("watcher on n%d ended on a value that differs from the node's final value", w.node), map[string]any{"last_seen": last, "final": fin})
+					}
+				}
+				w.cancel()
+			}
+			synctest.Wait()
+			run.Count("concurrent_cas_acked", int64(len(acks)))
+			run.EvalH(vt.Mix(uint64(c.Idx), uint64(len(acks)), 606), len(acks) > 1)
+		})
+	})
+	run.Finish(t)
+}
